@@ -324,6 +324,9 @@ class SubmitSm(Trackable, SmppMessage):
         tenth_second: int = int(smpp_time[12:13])
         # nn is the UTC offset in quarter hours, p its sign
         offset_minutes: int = int(smpp_time[13:15]) * 15
+        if abs(offset_minutes) >= 1440:
+            # datetime cannot work with an offset of a day or more (utcoffset() raises)
+            raise ValueError(f'Invalid UTC offset in SMPP time: {smpp_time}')
         if smpp_time[15:16] == '-':
             offset_minutes = -offset_minutes
         offset: FixedOffset = FixedOffset(offset_minutes, 'UTC' + smpp_time[15:16] + smpp_time[13:15])
